@@ -2878,8 +2878,6 @@ class PlateSlicer(Slicer):
 
         if frm.size == 1:
             # Source from the single element in frm
-            if frm.shape != (1, 1):
-                raise RuntimeError("Shape of source should have been (1, 1)")
 
             def helper_func(elem):
                 """ @private """
@@ -2893,13 +2891,13 @@ class PlateSlicer(Slicer):
 
                 return elem
 
-            frm_array = frm.get()
+            # for a list-addressed well get() is a copy, so the debited well is written back explicitly
+            frm_array = frm.get().reshape((1, 1))
             to.apply(helper_func)
+            frm.set(frm_array[0, 0])
 
         elif to.size == 1:
             #  Replace the single element in self
-            if to.shape != (1, 1):
-                raise RuntimeError("Shape of source should have been (1, 1)")
 
             def helper_func(elem):
                 """ @private """
@@ -2909,8 +2907,9 @@ class PlateSlicer(Slicer):
                 elem.instructions = "\n".join(instructions)
                 return elem
 
-            to_array = to.get()
+            to_array = to.get().reshape((1, 1))
             frm.apply(helper_func)
+            to.set(to_array[0, 0])
 
         elif frm.size == to.size and frm.shape == to.shape:
             def helper(elem1, elem2):
